@@ -177,8 +177,35 @@ PROPS["C07"] = {
 }
 
 
-def overlay_file(scratch, spec):
-    return None
+OVERLAYS = {
+    "queue": {"/repo/provider/internal/queue/zz_verif_driver_test.go": "/verif/overlay/queue/driver_test.go"},
+    "keyspace": {"/repo/provider/internal/keyspace/zz_verif_driver_test.go": "/verif/overlay/keyspace/driver_test.go"},
+}
+
+PROPS["C19"] = {
+    "exhaustive": [
+        {"spec": "PQueue.tla", "cfg": "PQueue_quick.cfg"},
+        {"spec": "PQueue.tla", "cfg": "PQueue_thorough.cfg", "tier": "thorough", "timeout": 3000, "heap": "20g"},
+        {"spec": "PQueue.tla", "cfg": "PQueue_neg_absorb.cfg", "expect": "violation"},
+        {"spec": "PQueue.tla", "cfg": "PQueue_neg_empty.cfg", "expect": "violation"},
+    ],
+    "drivers": [{"test": "TestVerifQueues", "pkg": "./provider/internal/queue", "overlay": "queue", "cwd": "/repo",
+                 "trace_spec": "PQueueTrace.tla", "trace_cfg": "PQueueTrace.cfg", "inv_cfg": {"C19": "PQueueTrace_C19.cfg"}}],
+    "assumptions": [
+        "the driver is compiled into package queue with go test -overlay (add-only file) and projects the queue state from the unexported deque / tries; if it stops compiling the check is inconclusive, not a violation",
+        "keys are abstracted to the first 5 bits of their Kademlia identifier (one real multihash per value), prefixes have length 0..3 (the empty prefix included)",
+        "persist/drain uses an in-memory map datastore; crash points inside Persist are not explored (Persist runs at Close)",
+    ],
+    "explanation": "PQueueOps.tla defines the queue operations as functions on (prefix order, key set); PQueue.tla checks NoOverlap, EachPrefixHasKeys, EachKeyCoveredOnce and AbsorptionPosition over all histories on a 3-bit keyspace; the real ProvideQueue/ReprovideQueue run thousands of random histories logging the full projected state after every operation, and TLC recomputes every post-state and result with the same operators (PQueueTrace.tla).",
+}
+
+
+def overlay_file(scratch, name):
+    """Writes the -overlay json for an internal-package driver (add-only mappings)."""
+    p = scratch.path("overlay-%s.json" % name)
+    with open(p, "w") as f:
+        json.dump({"Replace": OVERLAYS[name]}, f)
+    return p
 
 
 # --------------------------------------------------------------------------
@@ -496,6 +523,51 @@ def mut_c07_afterclose(run):
     return r
 
 
+def mut_c19_order(run):
+    if run[0].get("bits") is None:
+        return None
+    for i, ev in enumerate(run):
+        if ev["e"] == "Op" and len(ev["order"]) >= 2:
+            r = copy.deepcopy(run)
+            r[i]["order"] = [r[i]["order"][1], r[i]["order"][0]] + r[i]["order"][2:]
+            return r
+    return None
+
+
+def mut_c19_lostkey(run):
+    if run[0].get("bits") is None:
+        return None
+    for i, ev in enumerate(run):
+        if ev["e"] == "Op" and ev["op"] == "enq" and len(ev["qkeys"]) >= 1:
+            r = copy.deepcopy(run)
+            r[i]["qkeys"] = r[i]["qkeys"][1:]
+            r[i]["size"] = len(r[i]["qkeys"])
+            return r
+    return None
+
+
+def mut_c19_deq(run):
+    if run[0].get("bits") is None:
+        return None
+    for i, ev in enumerate(run):
+        if ev["e"] == "Op" and ev["op"] == "deq" and ev["retok"] and len(ev["retkeys"]) >= 1:
+            r = copy.deepcopy(run)
+            r[i]["retkeys"] = r[i]["retkeys"][1:]
+            return r
+    return None
+
+
+def mut_c19_reprov(run):
+    if run[0].get("bits") is None:
+        return None
+    for i, ev in enumerate(run):
+        if ev["e"] == "Op" and len(ev["rorder"]) >= 2:
+            r = copy.deepcopy(run)
+            r[i]["rorder"] = list(reversed(r[i]["rorder"]))
+            return r
+    return None
+
+
 MUTATIONS = {
     "C01": [mut_c01_unsorted, mut_c01_drop_nearest, mut_c01_resp_event],
     "C02": [mut_c02_unasked],
@@ -505,6 +577,7 @@ MUTATIONS = {
     "C08": [mut_c08_unnamed, mut_c08_dup],
     "C05": [mut_c05_downgrade, mut_c05_invalid_stored, mut_c05_fresh_deleted, mut_c05_stale_read],
     "C07": [mut_c07_missing, mut_c07_stranger, mut_c07_afterclose],
+    "C19": [mut_c19_order, mut_c19_lostkey, mut_c19_deq, mut_c19_reprov],
     "C12": [mut_c12_stranger, mut_c12_self, mut_c12_noevict, mut_c12_lost_refresh],
 }
 
